@@ -17,7 +17,9 @@ def parse_races(text):
             kind = "write" if re.search(r"[Ww]rite", b.split("\n")[0] + b.split("\n")[1] if len(b.split("\n")) > 1 else b) else "read"
             if gk:
                 fn, f, ln = gk[0]
-                acc.append("%s %s %s:%s" % (kind, fn.split("/")[-1], f.split("/v8/")[-1], ln))
+                # an access made while Client.Destroy builds the object it is about to publish (credentials.New and what it calls) is named as such
+                via = " [in Client.Destroy]" if any(g[0].split("/")[-1] == "client.(*Client).Destroy" for g in gk[1:]) else ""
+                acc.append("%s %s %s:%s%s" % (kind, fn.split("/")[-1], f.split("/v8/")[-1], ln, via))
             else:
                 acc.append(kind + " (outside gokrb5)")
         out.append(sorted(acc))
@@ -43,7 +45,7 @@ def main(tier):
         for phase, n, extra in (("use", rounds, []), ("destroy", max(10, rounds // 5), ["-destroy"])):
             racelog = os.path.join(wd, "race-" + phase)
             vlib.run_harness(["c11", "-seed", str(run.seed), "-rounds", str(n), "-out", trace] + extra, timeout=3400, race=True,
-                             env={"GORACE": "halt_on_error=0 log_path=%s" % racelog}, ok_codes=(0, 3, 66))
+                             env={"GORACE": "halt_on_error=0 history_size=5 log_path=%s" % racelog}, ok_codes=(0, 3, 66))
             part = vlib.read_ndjson(trace)
             for x in part:
                 x["ev"] = "round"
@@ -82,7 +84,7 @@ def main(tier):
                 writes = [a for a in x["accesses"] if a.startswith("write")]
                 pub = ("client.(*Client).Destroy", "credentials.New", "keytab.New")
                 cls = "other"
-                if writes and all(any(w.split()[1] == p for p in pub) for w in writes):
+                if writes and all(any(w.split()[1] == p for p in pub) or w.endswith("[in Client.Destroy]") for w in writes):
                     cls = "Destroy-replaces-Credentials"
                 facts = {"ev": "race", "phase": x["phase"], "site_class": cls, "accesses": x["accesses"] if cls == "other" else []}
             else:
